@@ -1474,6 +1474,12 @@ pub fn array_from(
                     .array_elements()
                     .map(|e| e.to_vec())
                     .unwrap_or_default();
+                // the map function may shrink the source: the copied elements stay rooted here
+                for elem in &source_elements {
+                    if let JsValue::Object(o) = elem {
+                        result_guard.guard(o.cheap_clone());
+                    }
+                }
                 for (i, elem) in source_elements.into_iter().enumerate() {
                     let mapped = if let Some(ref map) = map_fn {
                         if map.is_callable() {
